@@ -2,7 +2,7 @@
 
 op kinds (way = copy | deepcopy | p0..p5):
   ("dt",   way, tzref, wall_us, fold)
-  ("dur",  way, cls, years, months, weeks, days, hours, minutes, seconds, millis, micros)   cls = D | A (AbsoluteDuration)
+  ("dur",  way, cls, years, months, weeks, days, hours, minutes, seconds, millis, micros)   cls = D | A (AbsoluteDuration; model request c14adur)
   ("iv",   way, share, tzrefA, wallA, foldA, tzrefB, wallB, foldB, absolute, isdate)
   ("time", way, tod_us, tzref, fold)
   ("date", way, y, m, d)
@@ -25,7 +25,7 @@ from harness import zones as Z
 ID = "C14"
 BACKENDS = ("py", "rs")
 GEN_MODULES = ()
-MIN_THEOREMS = 20
+MIN_THEOREMS = 38
 US = D.US
 DAY = 86400 * US
 YMAX = Z.YMAX_QUICK
@@ -346,9 +346,9 @@ def line(op, backend):
         _, way, ref, w, fold = op
         return "c14dt %s %s %s %d %d" % ((way,) + _ref_words(ref) + (w, fold))
     if k == "dur":
-        if op[2] != "D":
-            return None      # AbsoluteDuration: oracle only
         _, way, cls, y, mo, wk, d, h, mi, s, ms, us = op
+        if cls != "D":
+            return "c14adur %s %d %d %d %d %d %d %d %d %d" % (way, y, mo, wk, d, h, mi, s, ms, us)
         return "c14dur %s %d %d %d %d %d %d %d %d %d" % (way, y, mo, wk, d, h, mi, s, ms, us)
     if k == "iv":
         _, way, share, ra, wa, fa, rb, wb, fb, ab, isdate = op
@@ -550,15 +550,18 @@ def _dur_ops(rng, tier):
     for h in hand:
         for way in WAYS:
             yield ("dur", way, "D") + h
-    # AbsoluteDuration (what Time.diff returns); years/months never occur there
+    # AbsoluteDuration (what Time.diff returns: no years/months there; the constructor accepts them, 1 op in 4 has them)
     n = {"quick": 150, "thorough": 5000, "widen": 1000}[tier]
     for _ in range(n):
-        vals = [0, 0] + [rng.choice((0, rng.randint(-m, m))) for m in mags[2:]]
+        ym = [rng.randint(-m, m) for m in mags[:2]] if rng.random() < 0.25 else [0, 0]
+        vals = ym + [rng.choice((0, rng.randint(-m, m))) for m in mags[2:]]
         for way in WAYS:
             yield ("dur", way, "A") + tuple(vals)
     for way in WAYS:
         yield ("dur", way, "A", 0, 0, 0, 0, 0, 0, 0, 0, -3600 * US - 5)
         yield ("dur", way, "A", 0, 0, 2, 3, 0, 0, 0, 0, 0)
+        yield ("dur", way, "A", -1, 2, 0, -3, 0, 0, 0, 0, 0)
+        yield ("dur", way, "A", 0, 0, 0, 0, 0, 0, 0, 0, -1)
 
 
 def _iv_ops(rng, tier):
